@@ -173,6 +173,10 @@ def run_write(case, R):
                     if all(s == 0 for s in statuses) and mode == "auto":
                         conn.send_http(204, "No Content")
                         return True
+                    if case.get("global_only") is not None:
+                        # the whole request is refused with one request-wide status and no list (what some bridges answer)
+                        conn.send_http(*case.get("http", [207, "Multi-Status"]), json.dumps({"status": case["global_only"]}).encode())
+                        return True
                     chars = [{"aid": a, "iid": i, "status": s} for (a, i), s in zip(ids, statuses)]
                     for pos, m in malformed:
                         chars.insert(pos % (len(chars) + 1), copy.deepcopy(m))
@@ -194,6 +198,16 @@ def run_write(case, R):
                 raised = e
                 res = None
             await vtime.settle(loop)
+            if case.get("global_only") is not None:
+                R.cls("write-global-only")
+                if raised is not None:
+                    return          # "or the call fails": a reply without a list is malformed as a whole, any failure will do
+                told = sorted(k_ for ev in events for k_ in ev)
+                bad = [k_ for k_ in ids if not (res or {}).get(k_, {}).get("status")]
+                if bad or told:
+                    R.fail("C13.rejected-reported-as-written", f"{what}: the accessory refused the whole request with status {case['global_only']} and no list; "
+                           f"result {res!r:.200}, listeners told about {told}", code="request-wide")
+                return
             if raised is not None:
                 if malformed or any(s != 0 for s in statuses) or case.get("http", [207])[0] >= 400:
                     R.cls("write-raised")
@@ -243,6 +257,10 @@ HTTP_LINES = [[200, "OK"], [500, "Internal Server Error"], [400, "Bad Request"],
 
 def enum_write(tier):
     idsets = [[(1, 9)], [(1, 9), (1, 11)], [(1, 9), (2, 10), (1, 11)]]
+    for ids in idsets:
+        for gs in (-70407, -70402, 70402, -12345):
+            for http in ([207, "Multi-Status"], [200, "OK"]):
+                yield {"ids": ids, "statuses": [gs] * len(ids), "global_only": gs, "http": http}
     for ids in idsets:
         for vec in itertools.product(CODES, repeat=len(ids)):
             if len(ids) == 3 and tier == "quick" and (CODES.index(vec[0]) + 2 * CODES.index(vec[1]) + 3 * CODES.index(vec[2])) % 4:
